@@ -1,31 +1,52 @@
 --------------------------- MODULE StmtWireTrace ---------------------------
 (* Trace validation of the real parser and the real statement wire (harness `vdrive stmtwire`)       *)
 (* against StmtWire.  The driver logs projections of the REAL trees: before the wire (a), after it   *)
-(* (b), of a second parse (a2), and the real bytes of stmt.Marshal as a JSON value (w).  All events   *)
-(* are pure; the judgement is the enabling condition of the event's action.                          *)
+(* (b), of a second parse (a2), and the real bytes of stmt.Marshal as a JSON value (w).  The wire      *)
+(* events are pure; the judgement is the enabling condition of the event's action.                   *)
+(* Overlapping parse calls (ParseRef / ParseBegin / ParseEnd): `ref` is the function text -> result   *)
+(* as the sequential parses of the trace (no call in flight) have shown it, `open` the calls in       *)
+(* flight; the result r of a call is the statement's projection or [k |-> "error"].                   *)
 EXTENDS StmtWire, Json
 
 Trace == ndJsonDeserialize("trace.ndjson")
-VARIABLE l
-tvars == <<vars, l>>
+VARIABLES l, ref
+tvars == <<vars, l, ref>>
 ASSUME TLCSet(1, 0)
 Ev(e) == l <= Len(Trace) /\ Trace[l].ev = e /\ l' = l + 1
 Line == Trace[l]
 NoneAt(lvl) == {}
 
-TraceInit == l = 1 /\ mode = "trace" /\ x = Nil /\ d = 0
-TReset == Ev("Reset") /\ UNCHANGED vars
+TraceInit == l = 1 /\ mode = "trace" /\ x = Nil /\ d = 0 /\ open = <<>> /\ pool = {} /\ lex = <<>> /\ ref = <<>>
+\* a new trace: no call in flight, nothing known about any text
+TReset == Ev("Reset") /\ open' = <<>> /\ ref' = <<>> /\ UNCHANGED <<mode, x, d, pool, lex>>
 
 \* sql.Parse twice on the same text: equal statements (the clock is an input when no absolute range is given)
-TParse == Ev("Parse") /\ SameModuloClock(Line.a, Line.a2, Line.abs) /\ UNCHANGED vars
+TParse == Ev("Parse") /\ SameModuloClock(Line.a, Line.a2, Line.abs) /\ UNCHANGED <<vars, ref>>
 \* ... and a text the parser rejects is rejected both times
-TParseError == Ev("ParseError") /\ Line.e1 = Line.e2 /\ UNCHANGED vars
+TParseError == Ev("ParseError") /\ Line.e1 = Line.e2 /\ UNCHANGED <<vars, ref>>
+
+\* a sequential parse (no call in flight): the first one of a text shows what the text means, later ones agree
+TParseRef ==
+  /\ Ev("ParseRef") /\ DOMAIN open = {}
+  /\ IF Line.text \in DOMAIN ref
+     THEN ResultOf(ref, Line.text, Line.r, Line.abs) /\ UNCHANGED ref
+     ELSE ref' = ref @@ (Line.text :> Line.r)
+  /\ UNCHANGED vars
+\* a call begins -- inside another call (nested through the parser seam) or next to others (goroutines)
+TParseBegin == Ev("ParseBegin") /\ Begin(Line.call, Line.text) /\ UNCHANGED <<mode, x, d, pool, lex, ref>>
+\* ... and ends: its result is the statement of ITS text, whatever began or ended since it began
+TParseEnd ==
+  /\ Ev("ParseEnd")
+  /\ Line.call \in DOMAIN open /\ open[Line.call].text = Line.text
+  /\ ResultOf(ref, Line.text, Line.r, Line.abs)
+  /\ End(Line.call)
+  /\ UNCHANGED <<mode, x, d, pool, lex, ref>>
 
 \* stmt.Query / stmt.MetricMetadata: MarshalJSON -> UnmarshalJSON (what query/leaf_processor.go does)
 StmtSurvives(e) == e.err = "" /\ WellFormedStmt(e.a) /\ Survives(e.a, e.b)
-TWire == Ev("Wire") /\ StmtSurvives(Line) /\ UNCHANGED vars
+TWire == Ev("Wire") /\ StmtSurvives(Line) /\ UNCHANGED <<vars, ref>>
 \* the payload RootMetricContext.MakePlan put into the task request, unmarshalled as the leaf does
-TPlanWire == Ev("PlanWire") /\ StmtSurvives(Line) /\ UNCHANGED vars
+TPlanWire == Ev("PlanWire") /\ StmtSurvives(Line) /\ UNCHANGED <<vars, ref>>
 
 \* stmt.Marshal / stmt.Unmarshal on one expression tree: the real bytes are the specified envelope,
 \* the real decoder returns the tree, and so does the specified decoder on the real bytes
@@ -36,9 +57,9 @@ TExprWire ==
   /\ Line.w = Enc(Line.a)
   /\ Survives(Line.a, Line.b)
   /\ Dec(Line.w) = Line.a
-  /\ UNCHANGED vars
+  /\ UNCHANGED <<vars, ref>>
 
-TraceNext == TReset \/ TParse \/ TParseError \/ TWire \/ TPlanWire \/ TExprWire
+TraceNext == TReset \/ TParse \/ TParseError \/ TWire \/ TPlanWire \/ TExprWire \/ TParseRef \/ TParseBegin \/ TParseEnd
 TraceSpec == TraceInit /\ [][TraceNext]_tvars
 
 HighWater == TLCSet(1, IF l > TLCGet(1) THEN l ELSE TLCGet(1))
